@@ -31,7 +31,8 @@ RULE = (
     "and 0-3 mutations (field value replaced by boundary/random/invalid-UTF-8/huge-length values, field dropped/duplicated/"
     "retyped, message truncated, trailing garbage, wrong stage/role); non-trivial = at least one mutated or out-of-stage "
     "message was verifiably consumed by the tested side (it answered a later sentinel, reacted, or terminated); distinct by "
-    "the exact byte script"
+    "the exact byte script; plus 8 enumerated pre scripts: orderly peer DISCONNECT right after the banner / after its KEXINIT x role x "
+    "blocking/event API (failure without a saved exception)"
 )
 
 SENT = b"verif-sentinel@verif"
@@ -814,6 +815,17 @@ def run(ctx):
             st.integers(0, 255),
         ),
     }
+    # enumerated sub-domain (8 cases, worker 0): the peer ends the session with an orderly DISCONNECT right after the banner
+    # or right after its KEXINIT - the one way start_client / start_server fail without any saved exception - x role x API
+    if ctx.worker == 0 and "pre" in os.environ.get("C38_FAMILIES", "pre"):
+        for role in ("client", "server"):
+            for after_kexinit in (False, True):
+                for blocking in (True, False):
+                    script = [BANNERS[0]]
+                    if after_kexinit:
+                        script.append(frame(mutate(20, kexinit_fields(KEXES[0], sorted(HOSTKEYS)[0]), [])))
+                    script.append(frame(peers.m_disconnect(11, b"bye")))
+                    run_pre(ctx, role, script, blocking)
     # families are interleaved (one draw picks the family) so that a budget hit thins all of them evenly
     weights = {"pre": 6, "post": 5, "authc": 4, "auths": 6, "wire": 2}
     fams = [f for f in os.environ.get("C38_FAMILIES", "pre,post,authc,auths,wire").split(",") if f in bodies]  # diagnostics only
